@@ -2,6 +2,7 @@
 import datetime
 import os
 
+import engine
 import fn_codec
 import sandbox
 from common import tok_s, tok_b, tok_opt, arg_dt, model_batch, esc, untok_s
@@ -271,6 +272,44 @@ def run(run, thorough):
     calc_parent(run, thorough)
     state_level(run, thorough)
     concurrent_writers(run, thorough)
+    decode_on_two_volumes(run, thorough)
+
+
+def decode_on_two_volumes(run, thorough):
+    """a relative Path= decodes back to the absolute original location against the top directory of ITS OWN volume - for every reader and
+    every way of printing it: entries on two volumes (and one in the home trash), read by trash-list, trash-list --files, trash-list --size
+    --files and trash-restore's listing, all in one run over all the directories"""
+    rng = run.rng
+    scns, metas = [], []
+    for k in range(24 if not thorough else 300):
+        names = [gen_name(rng).replace('\n', 'N') for _ in range(3)]
+        if any('\\udc' in ascii(x) for x in names):
+            names = ['pl ain%d' % k, 'per%%cent%d' % k, 'caf\xe9 %d' % k]
+        files = ['/vol1/d/' + names[0], '/vol2/' + names[1], '/home/u/' + names[2]]
+        order = rng.choice([['/vol1', '/vol2'], ['/vol2', '/vol1']])
+        tree = [['d', '/home/u', 0o755], ['d', '/vol1/d', 0o755], ['d', '/vol2', 0o755]] + [['f', f, 'data'] for f in files]
+        steps = [{'cmd': 'put', 'argv': ['--', f], 'now': [2024, 1, 2, 3, 4, 5 + i, 0]} for i, f in enumerate(files)]
+        steps += [{'cmd': 'list', 'argv': []}, {'cmd': 'list', 'argv': ['--files']}, {'cmd': 'list', 'argv': ['--size', '--files']},
+                  {'cmd': 'restore', 'argv': ['/'], 'stdin': '\n'}]
+        scns.append({'tree': tree, 'mounts': order, 'cwd': '/', 'uid': rng.choice([0, 1000]), 'env': {'HOME': '/home/u', 'TRASH_VOLUMES': ':'.join(['/'] + order)}, 'steps': steps})
+        metas.append({'files': files})
+    by_id = {id(s): m for s, m in zip(scns, metas)}
+    for scn, res in engine.run_all(run, 'two-volumes', scns):
+        judge_two_volumes(run, scn, by_id[id(scn)], res)
+
+
+def judge_two_volumes(run, scn, meta, res, section='two-volumes-state'):
+    run.count(section)
+    outs = [o['stdout'] for o in res['steps'][3:7]]
+    case = {'scenario': scn, 'two_volumes': meta, 'outputs': [esc(x[-400:]) for x in outs]}
+    for f in meta['files']:
+        for which, text in zip(('trash-list', 'trash-list --files', 'trash-list --size --files', "trash-restore's listing"), outs):
+            ok = any((ln.endswith(' ' + f) if ' -> ' not in ln else (' ' + f + ' -> ') in ln) for ln in text.split('\n'))
+            if not ok:
+                run.fail('oracle', '%s does not show the absolute original location an entry was trashed from (its Path= is relative to the top '
+                         'directory of its own volume)' % which, dict(case, location=esc(f), reader=which), key='location-not-decoded:' + which, section=section)
+                return
+    run.nontriv(('two-volumes', tuple(scn['mounts']), scn['uid']))
 
 
 def concurrent_writers(run, thorough):
@@ -290,6 +329,11 @@ def replay(run, payload):
     if 'schedule' in case:
         import p_c04
         return p_c04.replay(run, payload)
+    if 'two_volumes' in case:
+        res = sandbox.execute(case['scenario'])
+        if res.get('steps'):
+            judge_two_volumes(run, case['scenario'], case['two_volumes'], res, 'replay')
+        return
     if 'args_tok' in case:
         rep = model_batch([(case['function'], case['args_tok'])])[0]
         print('model now says:', rep, '| recorded impl:', case.get('impl'), '| recorded model:', case.get('model'))
